@@ -136,8 +136,22 @@ func vFdIsOpen(fd int) bool {
 	return err == nil
 }
 
+// vPdCtxDone is set by the dial scenario: has the dial's context been cancelled / expired?
+var vPdCtxDone func() bool
+
+// vPdReady: the three-way select of pollDesc.WaitWrite can proceed
 func vPdReady(pd *pollDesc, which int64) bool {
-	return true
+	select {
+	case <-pd.writeTrigger:
+		return true
+	default:
+	}
+	select {
+	case <-pd.closeTrigger:
+		return true
+	default:
+	}
+	return vPdCtxDone != nil && vPdCtxDone()
 }
 
 func vPtr(p *int32) unsafe.Pointer { return unsafe.Pointer(p) }
